@@ -30,7 +30,7 @@ def ty_range(t):
 
 class State:
     __slots__ = ("iv", "le", "bools", "variants", "cond", "alias", "refs", "ranges", "subdef", "discr", "iters",
-                 "mutref", "clos")
+                 "mutref", "clos", "divdef")
 
     def __init__(self):
         self.iv = {}
@@ -46,6 +46,7 @@ class State:
         self.iters = {}
         self.mutref = set()
         self.clos = {}
+        self.divdef = {}
 
     def copy(self):
         s = State()
@@ -293,6 +294,12 @@ class Interp:
         cur = st.le.get((x, y))
         if cur is None or k < cur:
             st.le[(x, y)] = k
+            # keep intervals consistent with the new relation (one step each way)
+            ix, iy = self.iv_of(x, st), self.iv_of(y, st)
+            if iy[1] != INF and iy[1] + k < ix[1]:
+                st.iv[x] = (ix[0], iy[1] + k)
+            if ix[0] != -INF and ix[0] - k > iy[0]:
+                st.iv[y] = (ix[0] - k, iy[1])
 
     def add_eq(self, st, x, y, k=0):
         """x == y + k"""
@@ -398,10 +405,12 @@ class Interp:
                 for (b, k2) in d["out"]:
                     if iv[0] != -INF:
                         self.set_iv(st, b, iv[0] - k2, INF)
-        for d in ("iv", "bools", "variants", "ranges", "subdef", "discr", "iters"):
+        for d in ("iv", "bools", "variants", "ranges", "subdef", "discr", "iters", "divdef"):
             m = getattr(st, d)
             for key in [k for k in m if hit(k)]:
                 del m[key]
+        for key in [k for k, v in st.divdef.items() if hit(v[0])]:
+            del st.divdef[key]
         for key in [k for k in st.le if hit(k[0]) or hit(k[1])]:
             del st.le[key]
         for a, b, k in new:
@@ -457,7 +466,7 @@ class Interp:
             if widen and key in a.le and k != a.le[key]:
                 continue
             r.le[key] = k
-        for d in ("bools", "variants", "alias", "refs", "ranges", "subdef", "discr", "iters", "clos"):
+        for d in ("bools", "variants", "alias", "refs", "ranges", "subdef", "discr", "iters", "clos", "divdef"):
             ma, mb, mr = getattr(a, d), getattr(b, d), getattr(r, d)
             for k, v in ma.items():
                 if mb.get(k) == v:
@@ -467,6 +476,21 @@ class Interp:
             if w is not None:
                 r.cond[k] = [f for f in v if f in w]
         r.mutref = a.mutref | b.mutref
+        # short-circuit booleans: when a bool local is the constant false on one side only, everything that holds on
+        # the other side is implied by the bool being true
+        for x, y in ((a, b), (b, a)):
+            for t, iv in x.iv.items():
+                if iv == (0, 0) and self.term_ty(t) == "bool" and y.iv.get(t, (0, 1)) != (0, 0):
+                    fs = []
+                    for key, k in y.le.items():
+                        if r.le.get(key) is None or r.le[key] > k:
+                            fs.append(("le", key[0], key[1], k))
+                    for tt, ivy in y.iv.items():
+                        ivr = r.iv.get(tt)
+                        if ivr is None or ivr[0] < ivy[0] or ivr[1] > ivy[1]:
+                            fs.append(("iv", tt, ivy[0], ivy[1]))
+                    if fs:
+                        r.cond[(t, 1)] = fs[:60]
         return r
 
     def _implied_k(self, st, key):
@@ -619,6 +643,8 @@ class Interp:
                 st.bools[lt] = d[1]
             elif kind == "sub":
                 st.subdef[lt] = (d[1], d[2])
+            elif kind == "div":
+                st.divdef[lt] = (d[1], d[2])
             elif kind == "discr":
                 st.discr[lt] = d[1]
             elif kind == "variant":
@@ -795,6 +821,13 @@ class Interp:
             if va is not None and vb is not None:
                 rel.append(("sub", va, vb))
         elif base == "Mul":
+            # (i <= r + k) and r = A / c  =>  i * c <= A + k * c
+            for x, cst in ((va, vb), (vb, va)):
+                if isinstance(x, str) and isinstance(cst, int) and cst > 0:
+                    for r, kk in self.reach_up(st, x):
+                        dd = st.divdef.get(r)
+                        if dd and dd[1] == cst:
+                            rel.append(("le", dd[0], kk * cst))
             c = [ia[0] * ib[0], ia[0] * ib[1], ia[1] * ib[0], ia[1] * ib[1]] if INF not in (abs(ia[0]), abs(ia[1]), abs(ib[0]), abs(ib[1])) else None
             if c:
                 res = (min(c), max(c))
@@ -803,9 +836,12 @@ class Interp:
                 res = (ia[0] // vb, ia[1] // vb if ia[1] != INF else INF)
                 if isinstance(va, str):
                     rel.append(("le", va, 0))
+                    rel.append(("div", va, vb))
         elif base == "Rem":
             if ib[0] > 0 and ib[1] != INF and ia[0] >= 0:
                 res = (0, min(ib[1] - 1, ia[1]))
+                if isinstance(va, str):
+                    rel.append(("le", va, 0))
         elif base == "BitAnd":
             cands = [x[1] for x in (ia, ib) if x[0] >= 0 and x[1] != INF]
             if cands:
@@ -994,9 +1030,9 @@ class Interp:
                 self.apply_fact(s2, ("variant", disc, dv))
             if isinstance(v, str):
                 self.set_iv(s2, v, val, val)
-                # propagate through equalities to len terms etc.
-                for (a, b), k in list(s2.le.items()):
-                    pass
+                if val == 1:
+                    for g in s2.cond.get((v, 1), []):
+                        self.apply_fact(s2, g)
             if not self.consistent(s2):
                 outs.append((bb, None))
                 continue
@@ -1006,6 +1042,9 @@ class Interp:
         feasible = True
         if cmp is not None and len(targets) == 1:
             self.assume_cmp(s3, cmp, targets[0][0] == 0)
+        if isinstance(v, str) and len(targets) == 1 and targets[0][0] == 0 and self.term_ty(v) == "bool":
+            for g in s3.cond.get((v, 1), []):
+                self.apply_fact(s3, g)
         if disc is not None:
             vals = {x[0] for x in targets}
             # a two-variant enum with one listed value: the other one is known
@@ -1254,7 +1293,7 @@ class Interp:
                 if c and isinstance(rt, str):
                     self._make_slice(st, dt, c, rt, parts[2])
             return
-        if base in ("slice::get", "Vec::get", "slice::get_mut") and "Range" in key and len(args) > 1:
+        if base in ("slice::get", "Vec::get", "slice::get_mut") and "Range" in (fn.get("pretty") or "") and len(args) > 1:
             c = self.container(a0, st)
             rt = v1
             if c and isinstance(rt, str):
@@ -1279,7 +1318,7 @@ class Interp:
                 st.cond.setdefault((dt, 1), []).append(("le", 1, "len:" + c, 0))
                 st.cond.setdefault((dt, 0), []).append(("le", "len:" + c, 0, 0))
             return
-        if base in ("slice::get", "Vec::get", "slice::get_mut") and key.endswith(("usize", "get", "get_mut")) and "Range" not in key:
+        if base in ("slice::get", "Vec::get", "slice::get_mut") and "Range" not in (fn.get("pretty") or ""):
             c = self.container(a0, st)
             if c and v1 is not None:
                 st.cond.setdefault((dt, 1), []).append(("le", v1, "len:" + c, -1))
